@@ -54,11 +54,13 @@
 (*  base class).                                                                                  *)
 (*                                                                                                *)
 (* Deviations of the pinned code are switches (Impl); with Impl = {} this module is the intended  *)
-(* design.  They are used by Trace_RWHandler (named Dev_...) and by MC_RWHandler_asimpl.cfg, which  *)
-(* must violate ReadErrorReported / CleanWrite.                                                   *)
+(* design.  They are used by Trace_RWHandler (named deviations recorded in `devs`) and by the     *)
+(* MC_RWHandler_asimpl_*.cfg configurations, which must violate FreshRead / CleanWrite /          *)
+(* AcceptedSound / VerdictStable; MC_RWHandler_broken_*.cfg switch on faults the code does not   *)
+(* have (Breakers) and must violate PollOncePerGroup / FlagsOK (no vacuity).                     *)
 EXTENDS Naturals, Sequences, FiniteSets, TLC
 
-CONSTANTS Layouts,       \* the layouts a behaviour may start from (records, see Lay below)
+CONSTANTS Layouts,       \* the layouts a behaviour may start from (records with the fields of NoLay below)
           Impl           \* subset of AllDevs: deviations of the implementation that are switched on
 
 AllDevs == {"MaskErr",        \* CR: a refused value of the requested key is answered with the stale value, readerror wiped
